@@ -288,6 +288,7 @@ const (
 	RStruct                 // heap struct object: families keyed by struct type
 	RBox                    // heap cell holding a non-struct value: families cell<T>
 	RElem                   // element of a backing array: families elem<T>
+	RDual                   // pointer to a struct that is either a heap object or a slice element (eref)
 )
 
 type LVal struct {
@@ -319,6 +320,8 @@ func (l *LVal) String() string {
 		s = "box:" + l.Ref.S + ":" + typeName(l.RootT)
 	case RElem:
 		s = "elem:" + l.Ref.S + "[" + l.Idx.S + "]:" + typeName(l.RootT)
+	case RDual:
+		s = "dual:" + l.Ref.S + ":" + typeName(l.RootT)
 	}
 	s += fmt.Sprintf("+%d:%s", l.Off, typeName(l.T))
 	if l.Sub != nil {
